@@ -187,7 +187,7 @@ func c19Str(t *rapid.T, label string) string {
 
 var c19Decl = &GenCfg{Depth: 2, Fanout: 2, MaxOpts: 3, MaxGroups: 2, NestGroups: 2, Kinds: []Kind{KString, KInt, KBool, KStringSlice, KMapSS, KBoolSlice, KFunc0, KFuncS, KFloat64, KIntPtr},
 	Pos: true, PosPct: 30, PosReq: true, Ns: true, EnvNs: true, Req: 15, Choices: true, Defaults: true, OptArg: true, Hidden: true, Desc: true, Env: true, Bases: true,
-	Aliases: true, SubOpt: 40, NonASCII: true, CmdPct: 60, NsDelims: []string{"-", "::", ""}}
+	Aliases: true, SubOpt: 40, NonASCII: true, CmdPct: 60, NsDelims: []string{"-", "::", ""}, StaticTwins: true}
 
 func genC19(t *rapid.T) *C19Case {
 	d := genDecl(t, c19Decl)
@@ -214,6 +214,9 @@ func genC19(t *rapid.T) *C19Case {
 			}
 		}
 		cm.G.EachGroup(func(g *Group, parents []*Group) {
+			if g.Static {
+				return // (a statically declared type: nothing about its options can vary)
+			}
 			if len(parents) > 0 && g.Field != "" && rapid.Bool().Draw(t, "grpText") {
 				g.LongDesc = c19Str(t, "grpLong")
 				if g.EnvNamespace != "" {
@@ -281,7 +284,12 @@ func genC19(t *rapid.T) *C19Case {
 		}
 	}
 	// one injected fault (or none)
-	opts := d.AllOpts()
+	var opts []*OptInfo
+	for _, o := range d.AllOpts() {
+		if !o.Groups[len(o.Groups)-1].Static {
+			opts = append(opts, o)
+		}
+	}
 	if len(opts) == 0 {
 		return c
 	}
